@@ -56,7 +56,7 @@ pub struct Case {
 }
 
 fn in_parent(c: &Case, i: usize) -> bool {
-    c.layout == 1 && c.n >= 3 && i == c.n - 1
+    c.layout & 1 == 1 && c.n >= 3 && i == c.n - 1
 }
 fn base_name(c: &Case, i: usize) -> String {
     if i >= c.n {
@@ -68,7 +68,9 @@ fn base_name(c: &Case, i: usize) -> String {
     }
 }
 fn fpath(c: &Case, i: usize) -> String {
-    format!("{}{}", if in_parent(c, i) { "/" } else { "/p/" }, base_name(c, i))
+    // layouts 2 and 3 are layouts 0 and 1 named by project-relative paths (`p/f0.graphql`, `f1.graphql`), as a
+    // library caller may name documents: a `..` then cancels the first component of a path
+    format!("{}{}{}", if c.layout >= 2 { "" } else { "/" }, if in_parent(c, i) { "" } else { "p/" }, base_name(c, i))
 }
 /// the spelled relative path of an import line
 fn spelled(c: &Case, l: &Line) -> String {
@@ -392,6 +394,19 @@ fn families(quick: bool) -> Vec<Family> {
         spells: if quick { vec![0] } else { vec![0, 1, 2] },
         targets: if quick { vec![0, 1, 5] } else { vec![0, 1, 3, 5] },
         allow_missing: false,
+        fragsets: if quick { vec![vec![0, 0, 0], vec![0, 1, 1], vec![1, 0, 2]] } else { all_fragsets(3) },
+    });
+    // the same with project-relative document names
+    v.push(Family { layout: 2, name: "n2-lines<=2-full-relative-names", n: 2, max_lines: 2, min_lines: 0, spells: vec![0, 1, 2], targets: all_t.clone(), allow_missing: true, fragsets: all_fragsets(2) });
+    v.push(Family {
+        layout: 3,
+        name: "n3-same-name-in-parent-dir-lines<=2-relative-names",
+        n: 3,
+        max_lines: 2,
+        min_lines: 0,
+        spells: vec![0, 1, 2],
+        targets: vec![0, 1, 2, 3, 5],
+        allow_missing: true,
         fragsets: if quick { vec![vec![0, 0, 0], vec![0, 1, 1], vec![1, 0, 2]] } else { all_fragsets(3) },
     });
     if !quick {
